@@ -23,7 +23,8 @@ var sharedFlushPatterns = []string{
 //	C07  every Tflush gets exactly one Rflush; a member is answered before an Rflush that was sent after it, or not at all
 //	C08  members start one at a time in arrival order and are answered in that order
 //	C03  a member that no Tflush sent after it could have cancelled gets exactly one reply with its own content
-func sharedFlush(prop string, seed int64, maxpend int, pattern string, mode string) core.Result {
+func sharedFlush(ctx *core.Ctx, prop string, maxpend int, pattern string, mode string) core.Result {
+	seed := ctx.Seed
 	withFlushOp := mode != "none"
 	var res core.Result
 	s, e, _, ok := c08setup(Config{Dotu: true, Msize: 8192, Maxpend: maxpend, Flush: withFlushOp})
@@ -103,16 +104,19 @@ func sharedFlush(prop string, seed int64, maxpend int, pattern string, mode stri
 		// collect: one Rflush per Tflush (bounded wait each), then whatever arrived for the group tag
 		rflushAt := map[uint16]int64{}
 		for _, fm := range flushes {
+			ctx.Beat()
 			rp, err := c.WaitTag(fm.Tag, W)
 			if err != nil || rp.Msg == nil {
 				violate("C07;shared-tag-flush;rflush-missing", fmt.Sprintf("a Tflush naming a tag that carries a shared-tag group was never answered (pattern %s)", pattern), det)
-				continue
+				violate("C03;shared-tag-flush;tflush-unanswered", fmt.Sprintf("a Tflush (a request like any other) got no reply (pattern %s)", pattern), det)
+				return res // the connection is not going to settle: stop here
 			}
 			if rp.Msg.Type != wire.Rflush {
 				violate("C07;shared-tag-flush;rflush-wrong-type", fmt.Sprintf("Tflush answered by type %d", rp.Msg.Type), det)
 			}
 			rflushAt[fm.Tag] = rp.Seq
 		}
+		ctx.Beat()
 		c.Quiesce(W)
 		var got []*Reply
 		for {
@@ -238,7 +242,7 @@ func sharedFlushCases(prop, tier string) []core.Case {
 				}
 				pat, mp, fo := pat, mp, fo
 				cases = append(cases, core.Case{ID: fmt.Sprintf("shared-tag-flush/%s/maxpend=%d/flushop=%s", pat, mp, fo), Run: func(ctx *core.Ctx) core.Result {
-					return sharedFlush(prop, ctx.Seed, mp, pat, fo)
+					return sharedFlush(ctx, prop, mp, pat, fo)
 				}})
 			}
 		}
